@@ -150,6 +150,19 @@ func runC04(c *Ctx) {
 		if c.Res.Inconclusive != "" {
 			return
 		}
+		c04eval(c, tr, bad, malleable, corrupt)
+		c.Res.Nontrivial = true
+	})
+	ns.S.Run(func() bool { return done })
+	if !done && len(c.Res.Violations) == 0 && c.Res.Inconclusive == "" && !ns.S.Zeno && !ns.S.StepCap {
+		c.Res.Inconclusive = "driver-stuck"
+	}
+	reportPanics(c, ns)
+}
+
+func c04eval(c *Ctx, tr *txRun, bad *WBlock, malleable bool, corrupt string) {
+	ns := tr.ns
+	simrt.NoPreempt(func() {
 		e := newTxEval(tr)
 		if bad == nil {
 			e.checkProofs(c)
@@ -216,13 +229,7 @@ func runC04(c *Ctx) {
 				}
 			}
 		}
-		c.Res.Nontrivial = true
 	})
-	ns.S.Run(func() bool { return done })
-	if !done && len(c.Res.Violations) == 0 && c.Res.Inconclusive == "" && !ns.S.Zeno && !ns.S.StepCap {
-		c.Res.Inconclusive = "driver-stuck"
-	}
-	reportPanics(c, ns)
 }
 
 func init() {
